@@ -5,102 +5,7 @@ verus! {
 //@include prelude/float_opaque.rs
 //@include prelude/vecmath_assumed.rs
 //@include prelude/std_assumed.rs
-//@struct file=src/algebra/csc/core.rs name=CscMatrix
-
-impl CscMatrix<F> {
-    // column pointers describe n columns over the stored entries
-    pub open spec fn colptr_ok(&self) -> bool {
-        &&& self.colptr@.len() == self.n + 1
-        &&& self.rowval@.len() == self.nzval@.len()
-        &&& self.colptr@[self.n as int] == self.nzval@.len()
-        &&& forall|a: int, b: int| 0 <= a <= b <= self.n ==> self.colptr@[a] <= self.colptr@[b]
-    }
-    pub open spec fn same_pattern(&self, o: &Self) -> bool {
-        self.m == o.m && self.n == o.n && self.colptr@ == o.colptr@ && self.rowval@ == o.rowval@ && self.nzval@.len() == o.nzval@.len()
-    }
-    // column of the stored entry k
-    pub open spec fn in_col(&self, k: int, j: int) -> bool { 0 <= j < self.n && self.colptr@[j] <= k < self.colptr@[j + 1] }
-
-//@fn file=src/algebra/csc/matrix_math.rs in="MatrixMathMut<T> for CscMatrix<T>" name=scale rules=R1
-//@contract
-    ensures final(self).same_pattern(old(self)),
-        forall|k: int| 0 <= k < old(self).nzval@.len() ==> #[trigger] final(self).nzval@[k] == f_mul(old(self).nzval@[k], c),
-//@end
-//@fn file=src/algebra/csc/matrix_math.rs in="MatrixMathMut<T> for CscMatrix<T>" name=negate rules=R1
-//@contract
-    ensures final(self).same_pattern(old(self)),
-        forall|k: int| 0 <= k < old(self).nzval@.len() ==> #[trigger] final(self).nzval@[k] == f_neg(old(self).nzval@[k]),
-//@end
-//@fn file=src/algebra/csc/matrix_math.rs in="MatrixMathMut<T> for CscMatrix<T>" name=lscale rules=R1,zipidx:*
-//@contract
-    requires old(self).rowval@.len() == old(self).nzval@.len(),
-        forall|k: int| 0 <= k < old(self).rowval@.len() ==> old(self).rowval@[k] < l@.len(),
-    ensures final(self).same_pattern(old(self)),
-        // C10: A <- diag(l) * A, entry for entry
-        forall|k: int| 0 <= k < old(self).nzval@.len() ==> #[trigger] final(self).nzval@[k] == f_mul(old(self).nzval@[k], l@[old(self).rowval@[k] as int]),
-//@loop 1
-        invariant
-            self.same_pattern(old(self)), self.rowval@.len() == self.nzval@.len(), r14_n1 == self.nzval@.len(),
-            forall|k: int| 0 <= k < self.rowval@.len() ==> self.rowval@[k] < l@.len(),
-            forall|k: int| 0 <= k < r14_i1 ==> #[trigger] self.nzval@[k] == f_mul(old(self).nzval@[k], l@[old(self).rowval@[k] as int]),
-            forall|k: int| r14_i1 <= k < r14_n1 ==> #[trigger] self.nzval@[k] == old(self).nzval@[k],
-//@end
-//@fn file=src/algebra/csc/matrix_math.rs in="MatrixMathMut<T> for CscMatrix<T>" name=rscale rules=R1,R6,R15:vals
-//@contract
-    requires old(self).colptr_ok(), r@.len() >= old(self).n,
-    ensures final(self).same_pattern(old(self)),
-        // C10: A <- A * diag(r), entry for entry
-        forall|k: int, j: int| #[trigger] old(self).in_col(k, j) ==> final(self).nzval@[k] == f_mul(old(self).nzval@[k], r@[j]),
-//@loop 1
-        invariant
-            old(self).colptr_ok(), r@.len() >= old(self).n, self.n == old(self).n, self.m == old(self).m,
-            colptr@ == old(self).colptr@, self.rowval@ == old(self).rowval@,
-            vals@.len() == old(self).nzval@.len(),
-            forall|k: int, j: int| #[trigger] old(self).in_col(k, j) && j < i ==> vals@[k] == f_mul(old(self).nzval@[k], r@[j]),
-            forall|k: int| old(self).colptr@[i as int] <= k < vals@.len() ==> #[trigger] vals@[k] == old(self).nzval@[k],
-            forall|k: int| 0 <= k < old(self).colptr@[0] ==> #[trigger] vals@[k] == old(self).nzval@[k],
-//@end
-//@fn file=src/algebra/csc/matrix_math.rs in="MatrixMathMut<T> for CscMatrix<T>" name=lrscale rules=R1,R3,R6,zipidx:1;2=mi,R15:self.nzval
-//@contract
-    requires old(self).colptr_ok(), r@.len() <= old(self).n,
-        forall|k: int| 0 <= k < old(self).rowval@.len() ==> old(self).rowval@[k] < l@.len(),
-    ensures final(self).same_pattern(old(self)),
-        // C10: A <- diag(l) * A * diag(r), entry for entry (columns beyond r.len() are left alone: zip semantics)
-        forall|k: int, j: int| #[trigger] old(self).in_col(k, j) && j < r@.len() ==>
-            final(self).nzval@[k] == f_mul(old(self).nzval@[k], f_mul(l@[old(self).rowval@[k] as int], r@[j])),
-        forall|k: int, j: int| #[trigger] old(self).in_col(k, j) && j >= r@.len() ==> final(self).nzval@[k] == old(self).nzval@[k],
-//@loop 1
-        invariant
-            col_ctr == r14_i1, r14_n1 == r@.len(), r@.len() <= old(self).n,
-            old(self).colptr_ok(), self.same_pattern(old(self)),
-            forall|k: int| 0 <= k < old(self).rowval@.len() ==> old(self).rowval@[k] < l@.len(),
-            forall|k: int, j: int| #[trigger] old(self).in_col(k, j) && j < r14_i1 ==>
-                self.nzval@[k] == f_mul(old(self).nzval@[k], f_mul(l@[old(self).rowval@[k] as int], r@[j])),
-            forall|k: int| old(self).colptr@[r14_i1 as int] <= k < self.nzval@.len() ==> #[trigger] self.nzval@[k] == old(self).nzval@[k],
-//@body_start 1
-            let ghost nz0 = self.nzval@;
-            let ghost jc = r14_i1 as int;
-            proof {
-                assert(old(self).colptr@[jc] <= old(self).colptr@[jc + 1] <= old(self).colptr@[old(self).n as int]);
-            }
-//@loop 2
-                invariant
-                    r14_n2 == last - first, vals@.len() == last - first, rows@.len() == last - first,
-                    first == old(self).colptr@[jc], last == old(self).colptr@[jc + 1], last <= old(self).rowval@.len(),
-                    forall|t: int| 0 <= t < rows@.len() ==> #[trigger] rows@[t] == old(self).rowval@[first + t],
-                    forall|k: int| 0 <= k < old(self).rowval@.len() ==> old(self).rowval@[k] < l@.len(),
-                    forall|t: int| 0 <= t < r14_i2 ==> #[trigger] vals@[t] == f_mul(nz0[first + t], f_mul(l@[old(self).rowval@[first + t] as int], ri)),
-                    forall|t: int| r14_i2 <= t < vals@.len() ==> #[trigger] vals@[t] == nz0[first + t],
-//@body_end 1
-            proof {
-                assert forall|k: int, j: int| #[trigger] old(self).in_col(k, j) && j < r14_i1 + 1 implies
-                    self.nzval@[k] == f_mul(old(self).nzval@[k], f_mul(l@[old(self).rowval@[k] as int], r@[j])) by {
-                    if j < jc { assert(old(self).colptr@[j + 1] <= old(self).colptr@[jc]); assert(nz0[k] == self.nzval@[k]); }
-                    else { assert(self.nzval@[k] == f_mul(nz0[k], f_mul(l@[old(self).rowval@[k] as int], ri))); }
-                }
-            }
-//@end
-}
+//@include units/inc/csc_scalings.rs
 
 // ------------------------------------------------------------------ scalar clip (scalarmath.rs)
 pub trait ScalarMath { fn clip(&self, min_thresh: Self, max_thresh: Self) -> Self where Self: Sized; }
